@@ -67,6 +67,78 @@ TEXT["C15"] = dict(
          "directory called tests is excluded entirely (stated; it is what upstream test data does). The end-to-end part "
          "(stubs unaffected outside such directories) rests on the correspondence only.")
 
+
+GEN_TIE = (" Tie: S-B runs the model and the real StubsStringGenerator/generate_stub_data/create_stub_files on synthetic API "
+           "objects and on the analysed repo test packages under both naming settings and compares every produced file byte for "
+           "byte; S-E runs the whole tool (mypy + griffe) on generated packages and evaluates the property's predicate — written "
+           "from the property statement against the package specification — on the parsed stubs.")
+ANA = (" The analyser side (mypy nodes -> API model) of this property is covered by the S-E oracle only; its Lean model "
+       "(Model/Analyze.lean) is tied by S-A but no theorem about it is claimed yet.")
+TEXT["C02"] = dict(
+    technique="Lean 4 proof (lexical validity of every emitted token class) + exhaustive name correspondence S-N + S-B/S-E with an independent stub recogniser",
+    text="Proof: Theorems/C02 proves for all inputs: escapeKeyword yields a legal identifier token and back-quotes exactly "
+         "the 33 Safe-DS keywords (table regenerated from the source, T1); every convertible Python name is rendered as an "
+         "identifier token under both settings at every emission site that goes through convert+escape (class, attribute, "
+         "function, property, parameter, result, enum member, type parameter); package paths and import lines are qualified "
+         "tokens; string literals and @PythonName/@PythonModule bodies are single closed STRING tokens when the value has no "
+         "quote/backslash/newline; documentation comments are single closed comment tokens when the text has no '*/'; with "
+         "kernel-checked counterexamples for each hypothesis (the corresponding known findings)." + GEN_TIE +
+         " 'Parses' is decided on the implementation's files by tie/stubparse.py, a recogniser written from the Safe-DS grammar.",
+    note=TRUST + " The syntactic half (brackets/braces closed by construction of the printer) is not a Lean theorem: it rests on "
+         "the recogniser accepting every file of every S-B/S-E case. The Safe-DS reference parser is not installed.")
+TEXT["C05"] = dict(
+    technique="Lean 4 proof (mutual structural induction: rendered type = compositional specification, totality, union normalisation laws) + S-B/S-E",
+    text="Proof: Theorems/C05 proves that for EVERY API type, generator state, module and position the rendered text equals "
+         "Spec.typeText — a pure compositional function of the type and the naming flag written from the documented mapping "
+         "— that rendering never raises on renderable types, and the union laws (duplicates removed, Nothing? last, T? "
+         "shorthand iff exactly {T, Nothing?} with a nullable kind, order-insensitivity), plus the mapping equations per "
+         "constructor." + GEN_TIE + ANA,
+    note=TRUST + " Known findings (position-dependent behaviour of the analyser): K05-callable-attribute, K05-property-tuple, "
+         "K05-list-attribute-unanalysed.")
+TEXT["C06"] = dict(
+    technique="Lean 4 proof (list induction over the parameter renderer against a specification) + S-B/S-E",
+    text="Proof: Theorems/C06 proves for all parameter lists: under the receiver invariant the stub list is the Python list "
+         "with the implicit receiver removed — same length, order, names (recoverable through the annotation), the default "
+         "is shown iff the parameter is optional and equals the Safe-DS literal of the Python default, variadic special cases "
+         "— with counterexamples for the two API invariants used (receiver first; optional implies typed)." + GEN_TIE +
+         " S-E also checks assigned_by / default_value / is_optional in the API JSON." + ANA,
+    note=TRUST)
+TEXT["C07"] = dict(
+    technique="Lean 4 proof (inductive relation for the rendered result list) + S-B/S-E",
+    text="Proof: Theorems/C07 proves for all result lists: a lone None result gives no results and no marker; otherwise exactly "
+         "the typed, non-empty-rendering results appear in order as name: type, with the one/many/none shapes and the "
+         "'result without type' marker iff none is shown; a None result among several is shown as Nothing?." + GEN_TIE +
+         " S-E checks annotated results against the annotation and inferred results (return statements nested in "
+         "if/try/loops/with/match/conditional expressions) for coverage of every literal." + ANA,
+    note=TRUST)
+TEXT["C10"] = dict(
+    technique="Lean 4 proof (paths and headers of every write operation) + S-B/S-E",
+    text="Proof: Theorems/C10 proves for every stub the generator model writes (module stubs, re-export stubs, placeholders): "
+         "the directory segments are the dot-segments of the Python module path announced in the header, the header "
+         "determines that path (annotation, else the un-escaped package line), the base name is the module/declaration name "
+         "without leading underscores, no segment is empty/'.'/'..' for well-formed ids; and characterises exactly when two "
+         "writes hit one path (proved absent under three stated exclusions, each with a kernel-checked counterexample)." + GEN_TIE,
+    note=TRUST + " no_two_texts_one_path is partial by necessity: the excluded situations (x/_x, placeholder vs module stub, "
+         "a..b vs a.b) are real and listed as findings.")
+TEXT["C16"] = dict(
+    technique="Lean 4 proof (write-log algebra: first operation on every path is a write; re-run idempotence) + S-B before/after oracle",
+    text="Proof: Theorems/C16 proves for all API values: the write log does not depend on pre-existing files (coherent "
+         "placeholder paths), the first operation on every path is a write, hence folding the log over ANY initial file map "
+         "gives the single-run contents on touched paths and leaves others alone; running twice equals running once "
+         "(rerun_idempotent_eq). The model has no hidden state (generation is a function of the API value). That the "
+         "IMPLEMENTATION does not mutate its API object is not a theorem: it is the S-B oracle (API.to_dict() before/after "
+         "every generation) plus byte-exact correspondence of repeated generations.",
+    note=TRUST + " Known finding K16-alias-rename (re-export under an alias renames the node in the API object).")
+TEXT["C20"] = dict(
+    technique="Lean 4 proof (state-monad invariants: pending markers flushed at every declaration; marker set = feature set) + S-B/S-E",
+    text="Proof: Theorems/C20 proves for all declarations and generator states: rendering a type/parameter adds exactly the "
+         "markers of Spec.typeKeys/paramKeys; createTodoMsg empties the pending set and prints the sorted messages; after "
+         "every function/property/attribute/class/module the pending set is empty (markers never move to a neighbour); "
+         "and for a function/attribute/class the emitted marker block is exactly the feature set of that declaration "
+         "(function_markers_model; _partial w.r.t. the independent Spec only for type variables whose converted name is "
+         "empty)." + GEN_TIE,
+    note=TRUST + " 'internal class as type' is state-dependent (imports seen so far) and characterised separately.")
+
 NOT_YET = "not claimed yet: the model layer this property lives in is still under construction (see DESIGN.md §6 staging)"
 
 
